@@ -129,7 +129,9 @@ Definition gen_feature_gen (cmp : nat -> nat -> bool) (a : args) (sp : attrs) (s
           if (length smp =? m)%nat && forallb (fun v => memZ v vec) smp then
             let pre := if rep then smp ++ vec else smp in      (* np.append(sampled_values, vec) *)
             if permb pre sh then
-              if forallb in_int32 sh then Ok (vec, sh, s3)     (* astype('int32') keeps the values *)
+              (* astype('int32'): the code does NOT raise on values outside int32, numpy wraps them
+                 silently; that is outside the modelled precondition (Err 9), see C19_int32_precondition *)
+              if forallb in_int32 sh then Ok (vec, sh, s3)
               else Err 9
             else Err 8
           else Err 7
@@ -162,20 +164,53 @@ Definition dflt (a : args) : attrs := ACard (cardinality a).
 Definition place (d : attrs) (acc : list attrs) (fix_ : nat) (at_ : attrs) : list attrs :=
   acc ++ repeat d (fix_ - length acc) ++ [at_].
 
+(* _ordered_structure: the entries flattened to (feature index, attributes) pairs ... *)
+Definition flat_entry (e : sentry) : list (nat * attrs) :=
+  match e with
+  | SOne i at_ => [(i, at_)]
+  | SMany ixs at_ => map (fun i => (i, at_)) ixs
+  end.
+Definition flat (st : option (list sentry)) : list (nat * attrs) :=
+  match st with None => [] | Some l => flat_map flat_entry l end.
+
+(* ... sorted by feature index (list.sort(key=index), stable) ... *)
+Fixpoint insert_ix (p : nat * attrs) (l : list (nat * attrs)) : list (nat * attrs) :=
+  match l with
+  | [] => [p]
+  | q :: r => if (fst p <=? fst q)%nat then p :: l else q :: insert_ix p r
+  end.
+Definition sort_ix (l : list (nat * attrs)) : list (nat * attrs) := fold_right insert_ix [] l.
+
+(* ... ValueError when an index is described more than once *)
+Fixpoint nodup_nat (l : list nat) : bool :=
+  match l with [] => true | x :: r => negb (existsb (Nat.eqb x) r) && nodup_nat r end.
+
+Definition place_all (d : attrs) (fl : list (nat * attrs)) (acc : list attrs) : list attrs :=
+  fold_left (fun acc (p : nat * attrs) => place d acc (fst p) (snd p)) fl acc.
+
+Definition layout (a : args) : res (list attrs) :=
+  let d := dflt a in
+  let fl := flat (structure a) in
+  if nodup_nat (map fst fl) then
+    let acc := place_all d (sort_ix fl) [] in
+    let all := acc ++ repeat d (n_features a - length acc) in
+    (* X has n_features rows: writing X[ix] with ix >= n_features raises IndexError *)
+    if (length all =? n_features a)%nat then Ok all else Err 20
+  else Err 21.
+
+(* generate_data before the ordering repair: entries processed in the order given *)
 Definition place_entry (d : attrs) (acc : list attrs) (e : sentry) : list attrs :=
   match e with
   | SOne i at_ => place d acc i at_
   | SMany ixs at_ => fold_left (fun acc i => place d acc i at_) ixs acc
   end.
-
-Definition layout (a : args) : res (list attrs) :=
+Definition layout_old (a : args) : res (list attrs) :=
   let d := dflt a in
   let acc := match structure a with
              | None => []
              | Some st => fold_left (place_entry d) st []
              end in
   let all := acc ++ repeat d (n_features a - length acc) in
-  (* X has n_features rows: writing X[ix] with ix >= n_features raises IndexError *)
   if (length all =? n_features a)%nat then Ok all else Err 20.
 
 (* X.T *)
@@ -216,14 +251,6 @@ Definition column (X : list (list Z)) (j : nat) : list Z := map (fun row => nth 
 
 (* ---------------------------------------------------------------- declared positions *)
 
-Definition flat_entry (e : sentry) : list (nat * attrs) :=
-  match e with
-  | SOne i at_ => [(i, at_)]
-  | SMany ixs at_ => map (fun i => (i, at_)) ixs
-  end.
-Definition flat (st : option (list sentry)) : list (nat * attrs) :=
-  match st with None => [] | Some l => flat_map flat_entry l end.
-
 Fixpoint declared_in (d : attrs) (fl : list (nat * attrs)) (j : nat) : attrs :=
   match fl with
   | [] => d
@@ -234,10 +261,11 @@ Definition declared (a : args) (j : nat) : attrs := declared_in (dflt a) (flat (
 
 Fixpoint increasing_from (lo : nat) (l : list nat) : bool :=
   match l with [] => true | i :: r => (lo <=? i)%nat && increasing_from (S i) r end.
-(* the structure's indices are strictly increasing and < n_features *)
-Definition sorted_structure (a : args) : bool :=
+
+(* every index is described once and is < n_features (any order) *)
+Definition wf_structure (a : args) : bool :=
   let ixs := map fst (flat (structure a)) in
-  increasing_from 0 ixs && forallb (fun i => (i <? n_features a)%nat) ixs.
+  nodup_nat ixs && forallb (fun i => (i <? n_features a)%nat) ixs.
 
 (* ---------------------------------------------------------------- the validator (fallback tie) *)
 
@@ -262,13 +290,30 @@ Definition shape_ok (a : args) (X : list (list Z)) : bool :=
   (length X =? n_samples a)%nat &&
   forallb (fun row => (length row =? n_features a)%nat && forallb in_int32 row) X.
 
-(* shape, and — for structures inside the hypothesis of C19_positions — per-column domain of the
-   DECLARED feature at its declared index, and ensure_rep *)
+(* shape, and per-column domain / ensure_rep of the feature the layout puts in column j (C19_positions: for
+   every well-formed structure that is the feature DECLARED for column j) *)
 Definition valid_dataset (a : args) (X : list (list Z)) : bool :=
   shape_ok a X &&
-  (if sorted_structure a
-   then forallb (fun j => col_ok a (declared a j) (column X j)) (seq 0 (n_features a))
-   else true).
+  match layout a with
+  | Ok specs => forallb (fun j => col_ok a (nth j specs (dflt a)) (column X j)) (seq 0 (n_features a))
+  | Err _ => false
+  end.
+
+(* ---------------------------------------------------------------- the RNG call pattern of a run *)
+
+Definition kind_of (r : answer) : Z :=
+  match r with
+  | RSeed _ => 0 | RChoice _ => 1 | RRandint _ => 2 | RShuffle _ => 3 | RRandintMat _ => 4 | RPermutation _ => 5
+  end.
+Definition feature_pattern (a : args) (sp : attrs) : list Z :=
+  (match sp with ACard _ => if random_values a then [1] else [] | _ => [] end) ++
+  (match sp with AValsP _ _ => [] | _ => [2] end) ++ [1; 3].
+(* kinds of the calls generate_data makes, in program order *)
+Definition call_pattern (a : args) : list Z :=
+  match layout a with
+  | Ok specs => 0 :: flat_map (feature_pattern a) specs
+  | Err _ => [0]
+  end.
 
 (* ---------------------------------------------------------------- naive generator *)
 
